@@ -59,13 +59,14 @@ Definition dec_value (bs : bytes) : option N :=
 Definition dec_canonical (bs : bytes) : bool :=
   match bs with
   | [] => false
-  | [48] => true
-  | b :: _ => negb (b =? 48)
+  | b :: r => negb (b =? 48) || match r with [] => true | _ => false end
   end.
 
 (** value of an optionally '-'-signed decimal numeral *)
 Definition int_value (bs : bytes) : option Z :=
   match bs with
-  | 45 :: r => match dec_value r with Some n => Some (- Z.of_N n)%Z | None => None end
-  | _ => match dec_value bs with Some n => Some (Z.of_N n) | None => None end
+  | b :: r =>
+    if b =? 45 then match dec_value r with Some n => Some (- Z.of_N n)%Z | None => None end
+    else match dec_value bs with Some n => Some (Z.of_N n) | None => None end
+  | [] => None
   end.
